@@ -36,6 +36,7 @@ def run(ctx, rep):
     rep.rule('R-C19-5', 'provisional hashes are verified before the commit; pre-hash mismatch sets skip_sync, which guards every parity effect of state_sync', 4)
     rep.rule('R-C19-6', '--force-nocopy invalidates inherited hashes on load; -N is rejected together with -h/-F/-R', 2)
 
+    C04.memhash_pairing(P, rep, 'R-C19-1p')
     # ---- R-C19-1
     f = P.fn('state_import_fetch')
     rep.analysed(f)
